@@ -225,9 +225,14 @@ def _gen_session(wl, plan, s, plots):
             t = pick(('features', 'shape'), samples=True)
             if t:
                 dur = band['T'] / band['fs']
-                a = round(wl.uniform(0, dur * 0.4), 2)
-                ops.append({'fn': 'limit', 'table': t['name'], 'start': a,
-                            'stop': round(a + wl.uniform(dur * 0.3, dur * 0.6), 2),
+                # windows that cut cycles off, and windows that keep every cycle (tiny start,
+                # stop beyond the signal or omitted)
+                a = wl.choice((0, round(2.0 / band['fs'], 4), round(wl.uniform(0.01, 0.06), 3),
+                               round(wl.uniform(0, dur * 0.4), 2), round(wl.uniform(0, dur * 0.4), 2)))
+                b = wl.choice((None, round(dur + 1, 2), round(dur, 3),
+                               round(a + wl.uniform(dur * 0.3, dur * 0.6), 2),
+                               round(a + wl.uniform(dur * 0.3, dur * 0.6), 2)))
+                ops.append({'fn': 'limit', 'table': t['name'], 'start': a, 'stop': b,
                             'reset': wl.random() < 0.6})
                 avail.append(dict(t, name=rname_prev(s, ops)))      # a limited table is a table again
         elif r < 0.92:
